@@ -1622,3 +1622,15 @@ Example ex_close_drains_hyp :
   open_send s = 0 /\ phase_of s 1 = RecvWait 0 /\ phase_of s 2 = RecvWait 1 /\
   let s' := final step s (map Resume [2; 1]) in phase_of s' 1 = Idle /\ phase_of s' 2 = Idle.
 Proof. vm_compute. auto. Qed.
+
+(* non-vacuity of ms_sender_fifo_trace with a NON-EMPTY prefix of the arrival log: two senders block, a receive serves
+   the first; the head of the queue is then the second sender and the earlier log entry (event 0) is no longer queued *)
+Example ex_sender_fifo_trace_nonempty_pre :
+  let s := final step (init (Fin 0)) [Send 1 0 1; Resume 1; Send 2 0 2; Resume 2; RecvNowait 3 1] in
+  reach (Fin 0) s /\ senders s = [(1, 2)] /\ senq s = [0] ++ 1 :: [] /\ returned s = [1] /\
+  (forall e', In e' [0] -> ~ In e' (map fst (senders s))) /\ subseq (map fst (@nil (eid * item))) (@nil eid).
+Proof.
+  split; [eexists; reflexivity|]. vm_compute.
+  refine (conj eq_refl (conj eq_refl (conj eq_refl (conj _ (ss_nil))))).
+  intros e' [<-|[]] [H|[]]. discriminate.
+Qed.
